@@ -36,6 +36,11 @@ func isByteSlice(t types.Type) bool {
 	return ok && b.Kind() == types.Uint8
 }
 
+func isAnySlice(t types.Type) bool {
+	_, ok := t.Underlying().(*types.Slice)
+	return ok
+}
+
 // paramRoot: v is the parameter itself or a phi / reslice p[lo:] (lo const)
 // of it whose length is at least len(p) - shrink. Returns the parameter and
 // how much shorter v may be.
@@ -139,7 +144,7 @@ func newLenPre(c *Ctx, fns []*ssa.Function) *lenPre {
 						}
 					}
 				}
-				if base == nil || !isByteSlice(base.Type()) {
+				if base == nil || !isAnySlice(base.Type()) {
 					continue
 				}
 				p, shrink, ok := paramRoot(base, map[ssa.Value]bool{})
@@ -155,7 +160,7 @@ func newLenPre(c *Ctx, fns []*ssa.Function) *lenPre {
 			if BlockExit(b) == ExitPanic {
 				for _, g := range GuardsOf(b) {
 					for _, p := range fn.Params {
-						if !isByteSlice(p.Type()) {
+						if !isAnySlice(p.Type()) {
 							continue
 						}
 						// the panic is reached when len(p) >= k is NOT established: find k
@@ -206,7 +211,7 @@ func newLenPre(c *Ctx, fns []*ssa.Function) *lenPre {
 
 // checkLenPre emits the obligations of the rule over the functions of the
 // given packages and returns the number of call-site obligations.
-func checkLenPre(c *Ctx, rule string, pkgs []string) int {
+func checkLenPre(c *Ctx, rule string, pkgs []string, exc map[string]string) int {
 	var fns []*ssa.Function
 	for _, p := range pkgs {
 		for _, fn := range c.Prog.FuncsIn(ModulePath + "/" + p) {
@@ -242,8 +247,52 @@ func checkLenPre(c *Ctx, rule string, pkgs []string) int {
 		c.Fail(rule, ShortName(fn)+"("+p.Name()+")/any-length", c.Prog.FuncPos(fn),
 			fmt.Sprintf("%s is called through an interface with a slice of any length but relies on len(%s) >= %d without checking it (%s): a shorter input panics", NameOf(fn), p.Name(), k, lp.where[p]))
 	}
+	// a function whose value is taken (handed to a pipeline, stored in a table) is
+	// called where this rule cannot see its argument: it must need nothing
+	taken := map[*ssa.Function]string{}
+	for _, fn := range c.Prog.Funcs() {
+		if fn.Blocks == nil {
+			continue
+		}
+		for _, b := range fn.Blocks {
+			for _, in := range b.Instrs {
+				for _, op := range in.Operands(nil) {
+					g, ok := (*op).(*ssa.Function)
+					if !ok || g == nil {
+						continue
+					}
+					if ci, isCall := in.(ssa.CallInstruction); isCall && ci.Common().Value == ssa.Value(g) {
+						continue // the callee of a static call
+					}
+					taken[Origin(g)] = c.Prog.Pos(in.Pos())
+					taken[g] = c.Prog.Pos(in.Pos())
+				}
+			}
+		}
+	}
+	reported := map[string]bool{}
+	for p, k := range lp.need {
+		fn := p.Parent()
+		if key := ShortName(Origin(fn)) + "(" + p.Name() + ")"; reported[key] || fn.Synthetic != "" {
+			continue
+		}
+		at, isTaken := taken[fn]
+		if !isTaken {
+			at, isTaken = taken[Origin(fn)]
+		}
+		if !isTaken || (fn.Signature.Recv() != nil && invoked[NameOf(fn)]) {
+			continue
+		}
+		n++
+		reported[ShortName(Origin(fn))+"("+p.Name()+")"] = true
+		c.Fail(rule, ShortName(Origin(fn))+"("+p.Name()+")/any-length", c.Prog.FuncPos(fn),
+			fmt.Sprintf("%s is used as a function value (%s) and so called with a slice of any length, but relies on len(%s) >= %d without checking it (%s): a shorter input panics", NameOf(fn), at, p.Name(), k, lp.where[p]))
+	}
 	// call sites passing something else than the caller's own parameter
 	for _, fn := range fns {
+		if fn.Synthetic != "" {
+			continue // instantiation wrappers and the like only hand their parameters on
+		}
 		ord := map[string]int{}
 		for _, cs := range Calls(fn) {
 			f := Callee(cs.Common())
@@ -271,6 +320,11 @@ func checkLenPre(c *Ctx, rule string, pkgs []string) int {
 				ord[NameOf(f)]++
 				key := fmt.Sprintf("%s/%s(arg%d)#%d", ShortName(fn), NameOf(Origin(f)), i, ord[NameOf(f)])
 				got := knownMinLen(a, cs.Block(), map[ssa.Value]bool{})
+				if why, isExc := exc[key]; isExc && got < k {
+					c.Note("%s exception %s: %s", rule, key, why)
+					c.Pass(rule, key, c.Prog.Pos(cs.Pos()), "exception: "+why)
+					continue
+				}
 				c.Oblige(rule, key, c.Prog.Pos(cs.Pos()), got >= k,
 					fmt.Sprintf("%s relies on len >= %d (%s) but the argument is only known to have len >= %d here", ShortName(f), k, lp.where[f.Params[i]], got))
 			}
